@@ -214,6 +214,9 @@ def write_replay(pid, payload):
     return p
 
 
+ALL_GENERATORS = ["gen_state"]
+
+
 def main():
     ap = argparse.ArgumentParser()
     ap.add_argument("prop")
@@ -235,19 +238,27 @@ def main():
 
     # (0) tables regenerated from the source
     tie_broken = []
-    if prop.get("tables"):
-        import gen_tables
+    # every generated file is refreshed on every run (the model driver is one program shared by all
+    # properties, so a stale table left by a run against another tree must never leak into this one);
+    # a translator that refuses the source breaks the tie only of the properties that declare it
+    import gen_tables
+    for tb in sorted(gen_tables.GENERATORS):
         try:
-            gen_tables.generate(prop["tables"])
+            gen_tables.generate([tb])
         except gen_tables.ShapeError as e:
-            tie_broken.append("translator: %s" % e)
-
-    for g in prop.get("generators", []):
+            if tb in prop.get("tables", []):
+                tie_broken.append("translator: %s" % e)
+            else:
+                notes.append("translator %s (not used by this property) refused the source: %s" % (tb, e))
+    for g in ALL_GENERATORS:
         mod = __import__(g)
         try:
             mod.generate()
         except mod.ShapeError as e:
-            tie_broken.append("translator %s: %s" % (g, e))
+            if g in prop.get("generators", []):
+                tie_broken.append("translator %s: %s" % (g, e))
+            else:
+                notes.append("translator %s (not used by this property) refused the source: %s" % (g, e))
 
     # (1,2) proofs + audit
     log("lean build", prop["lean_modules"])
